@@ -424,10 +424,14 @@ def nasa9_pipeline(run, repo, tables, max_seg):
                          'the zero coefficient rows of the segments are one shared array, anchoring one segment '
                          'overwrites the others' if kind == 'zero' else
                          'the anchor is applied to the first segment whatever segment T_ref lies in'),
-                      owner.module, fn)
+                      owner.module, fn,
+                      sig=lambda: 'the first segment reproduces the reference at T_ref, segment %d does not' % j
+                      if j and same(H(A[0], Tref), Href) else 'H/RT(T_ref) = %s' % show(H(A[j], Tref), 80))
             run.check(same(S(A[j], Tref), Sref), 'ANCHOR.S', 'nasa.Nasa9.from_data', key,
                       'with T_ref inside segment %d (of %d) S/R(T_ref) is not SoR_ref' % (j, nseg),
-                      owner.module, fn)
+                      owner.module, fn,
+                      sig=lambda: 'the first segment reproduces the reference at T_ref, segment %d does not' % j
+                      if j and same(S(A[0], Tref), Sref) else 'S/R(T_ref) = %s' % show(S(A[j], Tref), 80))
             n += 2
     return n
 
